@@ -129,6 +129,8 @@ def run_property(pid, tier, use_cache=True, njobs=16, only=None, verbose=False):
         for o in r.get("obligations", []):
             name, tag = obligation_name(pid, j, o, tags)
             is_tagged = (o["file"], o["line"]) in tags or bool(o.get("tag"))
+            if (o.get("desc") or "").startswith("vacuity control") and o.get("function") not in (j.entry, "", None):
+                continue        # control of another harness function of the same file: not part of this run
             if (o.get("desc") or "").startswith("vacuity control"):
                 # must-fail control behind a precondition: SUCCESS here means the contract is vacuous
                 n_vac += 1
@@ -163,7 +165,7 @@ def run_property(pid, tier, use_cache=True, njobs=16, only=None, verbose=False):
         per_job.append({"job": j.name, "engine": j.engine, "status": r["status"], "enforce": j.enforce,
                         "replace_with_contract": j.replace, "obligations": rel_n, "discharged": rel_ok,
                         "all_obligations_in_run": r.get("n", 0), "solver_s": r.get("solver_s"),
-                        "cached": bool(r.get("cache")), "backend": "cbmc 6.11.0 / minisat2 (SAT)",
+                        "cached": bool(r.get("cache")), "backend": "cbmc 6.11.0 / " + str(r.get("backend", "minisat2")) + " (SAT)",
                         "cmd": r.get("cbmc_cmd", ""), "note": j.note, "reason": r.get("reason"),
                         "warnings": r.get("warnings", [])})
 
